@@ -14,7 +14,10 @@ ASSUME T_RelsInj      == ThmRelsInjective(N)
 ASSUME T_NoDotsLeft   == ThmNoDotsLeft(N, B)
 ASSUME T_Sibling      == ThmSibling(N, B)
 
-NameSeq == SetToSeq(N \cup {<<>>})
+\* accessor family: every file name of the table below a directory and at the root (index / extension / file name / rels item only;
+\* the reference theorems are about directories and stay on N)
+ExtraNames == {<<9, f>> : f \in 13..Len(Segs)} \cup {<<f>> : f \in 13..Len(Segs)} \cup {<<2, 9, f>> : f \in 13..Len(Segs)}
+NameSeq == SetToSeq(N \cup {<<>>} \cup ExtraNames)
 BaseSeq == SetToSeq(B)
 Pairs   == SetToSeq({<<b, q>> : b \in B, q \in N})
 
